@@ -631,6 +631,9 @@ def follow_up(base: dict, res: dict, seed: int):
         mt[base["in_path"]] = 1000.0 if kind.endswith("older") else 900000.0
     d["parts"] = fixed + items
     d["prog"], d["variant"], d["special"] = prog, variant, special
+    # files the first run created next to OUT (a backup, a lock) are not part of the original tree:
+    # the second run may reuse or overwrite them
+    d["debris"] = sorted(SimFS.norm(k) for k in files if SimFS.norm(k) not in base_by_norm)
     d["out_state"] = "longer"  # pre-existing, arbitrary length relative to the new result
     d["fs"] = {"files": files, "dirs": list(base["fs"]["dirs"]), "ro": [], "unreadable": [], "mtimes": mt}
     return materialise(d)
